@@ -427,8 +427,10 @@ class Ctx:
             "coverage": cov, "assumptions": self.assume,
             "wall_s": round(time.time() - self.t0, 2), "violations": nviol,
         }
-        with open(os.path.join(ROOT, "evidence", f"{self.prop}.json"), "w") as f:
-            json.dump(ev, f, indent=1, default=str)
+        # VERIF_KEEP_EVIDENCE=1 (runs against a deliberately modified tree, e.g. a seeded change): leave the committed evidence alone
+        if os.environ.get("VERIF_KEEP_EVIDENCE") != "1":
+            with open(os.path.join(ROOT, "evidence", f"{self.prop}.json"), "w") as f:
+                json.dump(ev, f, indent=1, default=str)
         status = "OK" if nviol == 0 else "FAIL"
         print(f"{self.prop} {self.tier}: {status} obligations={disc}/{len(self.obligations)} "
               f"evaluations={self.evaluations} nontrivial={len(self.nontrivial)} "
